@@ -89,7 +89,7 @@ def handle (tb : Tables) (c impl : T) : String :=
         let alt := sdlObs cm { emptyTokenSpins := !tb.sdlEmptyTokenSpins } bytes tail
         verdict impl cur [{ flag := "D01", onInCur := tb.sdlEmptyTokenSpins, obs := alt }] specOk
       | "exe" =>
-        let cfgE : ExeCF.Cfg := { varTypeOptional := tb.exeVarTypeOptional, opErrPosAfterLookahead := tb.opErrPosAfterLookahead, fragCondPosAfterToken := tb.fragCondPosAfterToken }
+        let cfgE : ExeCF.Cfg := { varTypeOptional := tb.exeVarTypeOptional, opErrPosAfterLookahead := tb.opErrPosAfterLookahead, fragCondPosAfterToken := tb.fragCondPosAfterToken, opLineBeforeSkip := tb.opLineBeforeSkip }
         let cur := exeObs cm cfgE bytes tail
         let alt := exeObs cm { cfgE with varTypeOptional := !tb.exeVarTypeOptional } bytes tail
         -- the scanner returns either way; the nil type only crashes later (validation), so this flag is never a
